@@ -14,7 +14,7 @@ import (
 func init() {
 	register(&Property{
 		ID:          "C14",
-		Explanation: "A non-interference argument by construction, each step a rule. R1 (key provenance): the key of every TTLMap.Get/Set in the rate limiter and of every connections[...] access in the connection limiter is, unchanged, the token returned by the extractor for the current request (followed from the Extract call through the call arguments into the keyed access). R2 (decision slice): the admission comparison of the connection limiter mentions only connections[key], the configured maximum and the request's own amount (normal form; no total, no len of the map, no iteration over it); on the rate-limiter side the bucket code (construction, update, consume, rollback) reads no package-level variable and no limiter field, so a bucket set depends only on its own history and the clock. R3 (eviction): in the TTL map the space-freeing routine is called only on the path that inserts a NEW key, only on the len >= capacity edge and for exactly 1 entry; it removes expired entries first and otherwise pops the heap, whose order is strictly by expiry; Get deletes only on the expired edge, only the entry found under its own key, removing that very entry's heap item unconditionally (heap.Remove with the item's own index). R4 (= C03.R8): the TTL map has the configured capacity. R5 (= C19.R1): the client.ip token is the parser's host result, so distinct peers never share a token. R3 also: every store to a queued item's priority is followed on every path by heap.Fix / heap.Push. R6 (= C09.R8): critical sections of the limiters that may run user code are released by defer.",
+		Explanation: "A non-interference argument by construction, each step a rule. R1 (key provenance): the key of every TTLMap.Get/Set in the rate limiter and of every connections[...] access in the connection limiter is, unchanged, the token returned by the extractor for the current request (followed from the Extract call through the call arguments into the keyed access). R2 (decision slice): the admission comparison of the connection limiter mentions only connections[key], the configured maximum and the request's own amount (normal form; no total, no len of the map, no iteration over it); on the rate-limiter side the bucket code (construction, update, consume, rollback) reads no package-level variable and no limiter field, so a bucket set depends only on its own history and the clock. R3 (eviction): in the TTL map the space-freeing routine is called only on the path that inserts a NEW key, only on the len >= capacity edge and for exactly 1 entry; it removes expired entries first and otherwise pops the heap, whose order is strictly by expiry; Get deletes only on the expired edge, only the entry found under its own key, removing that very entry's heap item unconditionally (heap.Remove with the item's own index). R4 (= C03.R8): the TTL map has the configured capacity. R5 (= C19.R1): the client.ip token is the parser's host result, so distinct peers never share a token. R3 also: every store to a queued item's priority is followed on every path by heap.Fix / heap.Push. R6 (= C09.R8): critical sections of the limiters that may run user code are released by defer. R4 also: NewTTLMap stores its capacity argument (raised to 0, never capped).",
 		NotDecided: []string{
 			"heap correctness (container/heap, trusted); that the projection of each source's decisions equals its solo run is the consequence of R1-R3 argued on paper, not replayed",
 		},
@@ -550,6 +550,7 @@ func mutantsC14() []Mutant {
 		{Name: "map-sized-before-options", File: "ratelimit/tokenlimiter.go", Old: "\tsetDefaults(tl)\n\ttl.bucketSets = collections.NewTTLMap(tl.capacity)\n\treturn tl, nil", New: "\treturn tl, nil", More: []Edit{{"ratelimit/tokenlimiter.go", "\tfor _, o := range opts {\n\t\tif err := o(tl); err != nil {\n\t\t\treturn nil, err\n\t\t}\n\t}\n", "\tsetDefaults(tl)\n\ttl.bucketSets = collections.NewTTLMap(tl.capacity)\n\tfor _, o := range opts {\n\t\tif err := o(tl); err != nil {\n\t\t\treturn nil, err\n\t\t}\n\t}\n"}}, Expect: "C14.R4"},
 		{Name: "clientip-canonicalised-unchecked", File: "utils/source.go", Old: "\treturn host, 1, nil", New: "\treturn net.ParseIP(host).String(), 1, nil", Expect: "C14.R5"},
 		{Name: "pq-update-in-place", File: "internal/holsterv4/collections/priority_queue.go", Old: "\theap.Remove(p.impl, el.index)\n\tel.Priority = priority\n\theap.Push(p.impl, el)\n", New: "\tif priority >= el.Priority && el.index >= (p.impl.Len()-1)/2 {\n\t\tel.Priority = priority\n\t\treturn\n\t}\n\theap.Remove(p.impl, el.index)\n\tel.Priority = priority\n\theap.Push(p.impl, el)\n", Expect: "C14.R3"},
+		{Name: "ttlmap-capacity-capped", File: "internal/holsterv4/collections/ttlmap.go", Old: "\tif capacity <= 0 {\n\t\tcapacity = 0\n\t}\n", New: "\tif capacity <= 0 {\n\t\tcapacity = 0\n\t}\n\tif capacity > 1<<16 {\n\t\tcapacity = 1 << 16\n\t}\n", Expect: "C14.R4"},
 	}
 }
 
